@@ -674,5 +674,3 @@ func RunC04(r *mon.Run) {
 		do(x, requestTypes[g.rng.Intn(len(requestTypes))], acc, acceptEncodingPool[g.rng.Intn(len(acceptEncodingPool))])
 	}
 }
-
-var _ = mon.Home
